@@ -43,7 +43,7 @@ theorem partitioned_refines (v : View) (n : Int) (hwf : v.lay.WF) (hd : (Op.part
     rw [View.ext_cons hv] at hq
     rw [View.exts_cons hv]
     have hn0 : n ≠ 0 := by omega
-    have key : v.partitioned n = ⟨v.base, ⟨d.nelems.tdiv n, 0, d.nelems⟩ :: { d with nelems := d.nelems.tdiv n } :: sub⟩ := by
+    have key : v.partitioned n = ⟨v.base, ⟨if d.nelems.tdiv n ≠ 0 then d.nelems.tdiv n else 1, 0, d.nelems⟩ :: { d with nelems := d.nelems.tdiv n } :: sub⟩ := by
       unfold View.partitioned; simp [hv]
     rw [key]
     rcases hdwf.cases with h0 | ⟨f, N, hN, hst, hf, hnn, he, hsz⟩
@@ -53,7 +53,7 @@ theorem partitioned_refines (v : View) (n : Int) (hwf : v.lay.WF) (hd : (Op.part
         simp [Op.specShape, Ext.size, Ext.norm]
       rw [hshape]
       refine ⟨?_, ?_, ?_⟩
-      · exact Layout.WF.cons (d := ⟨d.nelems.tdiv n, 0, d.nelems⟩) (Or.inl h0)
+      · exact Layout.WF.cons (d := ⟨if d.nelems.tdiv n ≠ 0 then d.nelems.tdiv n else 1, 0, d.nelems⟩) (Or.inl h0)
           (Layout.WF.cons (d := { d with nelems := d.nelems.tdiv n }) (Or.inl (by simp [h0])) hsub)
       · simp [View.exts, Layout.exts, Dim.ext, h0]
       · intro idx hidx
@@ -72,8 +72,10 @@ theorem partitioned_refines (v : View) (n : Int) (hwf : v.lay.WF) (hd : (Op.part
         have hne' : n * q ≠ 0 := by omega
         simp only [Op.specShape, hsz', e2, norm_of_pos hqpos, hne', if_false]
         simp
-      rw [hshape, e1]
       have hqs : 0 < q * d.stride := Int.mul_pos hqpos hst
+      have hqs0 : q * d.stride ≠ 0 := by omega
+      rw [hshape, e1]
+      simp only [hqs0, ne_eq, not_false_eq_true, if_true]
       have htop : (⟨q * d.stride, 0, d.nelems⟩ : Dim) = ⟨q * d.stride, 0 * (q * d.stride), n * (q * d.stride)⟩ := by
         rw [hnn]; simp; grind
       have hsec : ({ d with nelems := q * d.stride } : Dim) = ⟨d.stride, f * d.stride, q * d.stride⟩ := by
